@@ -35,6 +35,11 @@ SIGNATURES = {
               ('b', 2, 'plain', False)],
     'H,a,H,b': [('ctx', 0, 'hidden', False), ('a', 1, 'plain', False),
                 ('eng', 2, 'hidden', False), ('b', 3, 'plain', False)],
+    # hidden parameters after the visible ones (max(a, b, engine) ...)
+    'a,b,H': [('a', 0, 'plain', False), ('b', 1, 'plain', False),
+              ('eng', 2, 'hidden', False)],
+    'a,b=,H,H': [('a', 0, 'plain', False), ('b', 1, 'plain', True),
+                 ('eng', 2, 'hidden', False), ('ctx', 3, 'hidden', False)],
 }
 # calls: (positional value ids, {keyword: value id})
 CALLS = {
@@ -46,6 +51,10 @@ CALLS = {
     'a,**kw': [(('x',), {'q': 'y'}), (('x',), {}), (('x',), {'q': None})],
     'a,H,b': [(('x', 'y'), {}), (('x',), {'b': 'y'})],
     'H,a,H,b': [(('x', 'y'), {}), (('x',), {'b': 'y'})],
+    'a,b,H': [(('x', 'y'), {}), (('x',), {'b': 'y'}),
+              ((), {'a': 'x', 'b': 'y'})],
+    'a,b=,H,H': [(('x', 'y'), {}), (('x',), {'b': 'y'}), (('x',), {}),
+                 ((), {'a': 'x'})],
 }
 
 
